@@ -123,7 +123,12 @@ func embedCheck(p reflect.Value, path string, n *int, depth int) string {
 	b = append([]byte(nil), b...)
 	kids, names := childMessages(p)
 	cursor := 0
+	// IPv6 extension headers are written in the order of the next-header chain, not in field order
+	unordered := typeName(p.Elem().Type()) == "p.IPv6"
 	for i, k := range kids {
+		if unordered {
+			cursor = 0
+		}
 		kb, ok := marshalOf(k)
 		if !ok {
 			continue
